@@ -75,3 +75,26 @@ T('C13', 'evi-rearranged', 'multispectral.py', "out[y, x] = gain * (numerator / 
 T('C13', 'gci-rearranged', 'multispectral.py', "out[y, x] = nir / green - 1", "out[y, x] = (nir - green) / green", first=True)
 T('C13', 'ndvi-float32-cast', 'multispectral.py', "out = mapper(nir_agg)(nir_agg.data.astype('f4'), red_agg.data.astype('f4'))", "out = mapper(nir_agg)(nir_agg.data.astype(np.float32), red_agg.data.astype(np.float32))")
 T('C13', 'truecolor-bitor', 'multispectral.py', "a = np.where(np.logical_or(np.isnan(r), r <= nodata), 0, 255)", "a = np.where(np.isnan(r) | (r <= nodata), 0, 255)")
+
+# ------------------------------------------------------------------------------------------------ C17
+M('C17', 'nditer-order-removed', 'local.py', "for comb in np.nditer([raster[var].data for var in data_vars], order='C'):\n        iter_list.append(list(", "for comb in np.nditer([raster[var].data for var in data_vars]):\n        iter_list.append(list(", 'L1')
+M('C17', 'nditer-order-F', 'local.py', "np.nditer([raster[var].data for var in data_vars], order='C')", "np.nditer([raster[var].data for var in data_vars], order='F')", 'L1', first=True)
+M('C17', 'lesser-ge', 'local.py', "            if ref > item:", "            if ref >= item:", 'L2')
+M('C17', 'greater-flipped', 'local.py', "            if ref < item:", "            if item < ref:", 'L2')
+M('C17', 'lowest-no-plus1', 'local.py', "min_index = comb.index(min_value) + 1", "min_index = comb.index(min_value)", 'L4')
+M('C17', 'highest-uses-min', 'local.py', "max_value = max(comb)", "max_value = min(comb)", 'L4')
+M('C17', 'nan-after-result', 'local.py', "        if np.isnan(comb).any():\n            out.append(np.nan)\n            continue\n\n        min_value = min(comb)\n        min_index = comb.index(min_value) + 1\n\n        out.append(min_index)",
+  "        min_value = min(comb)\n        min_index = comb.index(min_value) + 1\n\n        out.append(min_index)", 'L3')
+M('C17', 'reshape-rows', 'local.py', "final_arr = np.reshape(final_arr, (-1, raster[data_vars[0]].data.shape[1]))\n    final_arr = xr.DataArray(final_arr)\n\n    return final_arr\n\n\ndef combine",
+  "final_arr = np.reshape(final_arr, (-1, raster[data_vars[0]].data.shape[0]))\n    final_arr = xr.DataArray(final_arr)\n\n    return final_arr\n\n\ndef combine", 'L5')
+M('C17', 'rank-reverse', 'local.py', "        comb.sort()\n", "        comb.sort(reverse=True)\n", 'L4')
+M('C17', 'rank-ref-not-shifted', 'local.py', "        comb_ref = ref - 1\n        comb.sort()", "        comb_ref = ref\n        comb.sort()", 'L4')
+M('C17', 'combine-from-0', 'local.py', "    all_values = []\n    value = 1\n", "    all_values = []\n    value = 0\n", 'L4')
+M('C17', 'stats-nanmax', 'local.py', "    'max': np.max,", "    'max': np.nanmax,", 'L-table')
+M('C17', 'stats-swapped', 'local.py', "    'min': np.min,", "    'min': np.max,", 'L-table')
+M('C17', 'ref-col-major', 'local.py', "ref_list = [item for arr in raster[ref_var].data for item in arr]\n    for ref, comb in zip(ref_list, iter_list):\n        count = 0\n        if np.isnan(comb).any():\n            out.append(np.nan)\n            continue\n\n        for item in comb:\n            if ref > item:",
+  "ref_list = [item for arr in raster[ref_var].data.T for item in arr]\n    for ref, comb in zip(ref_list, iter_list):\n        count = 0\n        if np.isnan(comb).any():\n            out.append(np.nan)\n            continue\n\n        for item in comb:\n            if ref > item:", 'L1-ref')
+T('C17', 'lesser-flipped-same', 'local.py', "            if ref > item:", "            if item < ref:")
+T('C17', 'reshape-method', 'local.py', "final_arr = np.reshape(final_arr, (-1, raster[data_vars[0]].data.shape[1]))\n    final_arr = xr.DataArray(final_arr)\n\n    return final_arr\n\n\ndef combine",
+  "final_arr = final_arr.reshape(-1, raster[data_vars[0]].data.shape[1])\n    final_arr = xr.DataArray(final_arr)\n\n    return final_arr\n\n\ndef combine")
+T('C17', 'lowest-inline', 'local.py', "        min_value = min(comb)\n        min_index = comb.index(min_value) + 1\n\n        out.append(min_index)", "        out.append(comb.index(min(comb)) + 1)")
